@@ -344,31 +344,38 @@ pub(crate) async fn start_with_shutdown(
     let _ = cluster_handle.await;
 }
 
+type ExecutorQueue = UnboundedSender<(Log<ClusterAction>, Option<ResultNotifier>)>;
+
 pub(crate) struct ClusterStorage {
     result_notifiers: HashMap<DbId, ResultNotifier>,
     notifier: tokio::sync::broadcast::Sender<u64>,
+    executor: ExecutorQueue,
     index: u64,
     term: u64,
     commit: u64,
-    db: ServerDb,
     cluster_log: ClusterLog,
-    db_pool: DbPool,
 }
 
 impl ClusterStorage {
     async fn new(db: ServerDb, cluster_log: ClusterLog, db_pool: DbPool) -> ServerResult<Self> {
         let (index, term, commit) = cluster_log.cluster_log().await?;
         let logs = cluster_log.logs_unexecuted(commit).await?;
+        let notifier = tokio::sync::broadcast::channel(100).0;
+        let executor = Self::start_executor(
+            db.clone(),
+            db_pool.clone(),
+            cluster_log.clone(),
+            notifier.clone(),
+        );
 
         let mut storage = Self {
             result_notifiers: HashMap::new(),
-            notifier: tokio::sync::broadcast::channel(100).0,
+            notifier,
+            executor,
             index,
             term,
             commit,
-            db,
             cluster_log,
-            db_pool,
         };
 
         for log in logs {
@@ -378,25 +385,40 @@ impl ClusterStorage {
         Ok(storage)
     }
 
-    async fn execute_log(&mut self, log: Log<ClusterAction>) -> ServerResult<()> {
-        let log_id = log.db_id.unwrap_or_default();
-        let db = self.db.clone();
-        let db_pool = self.db_pool.clone();
-        let cluster_log = self.cluster_log.clone();
-        let notifier = self.notifier.clone();
-        let result_notifier = self.result_notifiers.remove(&log_id);
+    // Committed actions are executed by a single task in the order they were
+    // committed. Spawning one task per action would let a multi-threaded runtime
+    // start (and finish) a later action before an earlier one.
+    fn start_executor(
+        db: ServerDb,
+        db_pool: DbPool,
+        cluster_log: ClusterLog,
+        notifier: tokio::sync::broadcast::Sender<u64>,
+    ) -> ExecutorQueue {
+        let (executor, mut queue) =
+            tokio::sync::mpsc::unbounded_channel::<(Log<ClusterAction>, Option<ResultNotifier>)>();
 
         tokio::spawn(async move {
-            #[cfg(agdb_verif)]
-            crate::verif_hooks::task_start(log.index).await;
-            let result = log.data.exec(db.clone(), db_pool).await;
-            let _ = notifier.send(log.index);
-            let _ = cluster_log.log_executed(log_id).await;
+            while let Some((log, result_notifier)) = queue.recv().await {
+                let log_id = log.db_id.unwrap_or_default();
+                #[cfg(agdb_verif)]
+                crate::verif_hooks::task_start(log.index).await;
+                let result = log.data.exec(db.clone(), db_pool.clone()).await;
+                let _ = notifier.send(log.index);
+                let _ = cluster_log.log_executed(log_id).await;
 
-            if let Some(rs) = result_notifier {
-                let _ = rs.send(result.map(|r| (log.index, r)));
+                if let Some(rs) = result_notifier {
+                    let _ = rs.send(result.map(|r| (log.index, r)));
+                }
             }
         });
+
+        executor
+    }
+
+    async fn execute_log(&mut self, log: Log<ClusterAction>) -> ServerResult<()> {
+        let log_id = log.db_id.unwrap_or_default();
+        let result_notifier = self.result_notifiers.remove(&log_id);
+        self.executor.send((log, result_notifier))?;
 
         Ok(())
     }
